@@ -8,6 +8,12 @@
 #include <ArduinoJson/Polyfills/assert.hpp>
 #include <ArduinoJson/Polyfills/integer.hpp>
 
+#ifdef BBLANCHON_ARDUINOJSON_VERIF
+namespace verif {
+struct Inspector;
+}
+#endif
+
 ARDUINOJSON_BEGIN_PRIVATE_NAMESPACE
 
 using SlotId = uint_t<ARDUINOJSON_SLOT_ID_SIZE * 8>;
@@ -46,6 +52,9 @@ class Slot {
 
 template <typename T>
 class MemoryPool {
+#ifdef BBLANCHON_ARDUINOJSON_VERIF
+  friend struct ::verif::Inspector;
+#endif
  public:
   void create(SlotCount cap, Allocator* allocator) {
     ARDUINOJSON_ASSERT(cap > 0);
